@@ -750,6 +750,44 @@ def const_eval(t):
     raise NotConstant
 
 
+def simplify(I: Interp, t):
+    """Re-evaluate a term bottom-up after a substitution made parts of it constant: decided conditionals, comparisons and
+    truth tests of constants, and look-ups of constant keys in tables that are never written (module / class level)."""
+    from .absint import mk_cond, mk_not
+    if not isinstance(t, tuple) or not t or t[0] in ("const", "ref"):
+        return t
+    new = tuple(simplify(I, x) if isinstance(x, tuple) else x for x in t)
+    k = new[0]
+
+    def table(ref):
+        o = I.obj(ref)
+        if isinstance(o, HDict) and o.origin[2] == 0 and o.entries and all(e[0] != "**" and is_const(e[0]) for e in o.entries):
+            return o
+        return None
+    if k == "cond":
+        try:
+            return new[2] if const_eval(new[1]) else new[3]
+        except NotConstant:
+            return mk_cond(new[1], new[2], new[3])
+    if k in ("cmp", "not", "bool"):
+        try:
+            return const(const_eval(new))
+        except NotConstant:
+            return new
+    if k == "call" and new[1] == ".get" and len(new[2]) in (2, 3) and is_const(new[2][1]) and table(new[2][0]) is not None:
+        for e in table(new[2][0]).entries:
+            if e[0] == new[2][1]:
+                return e[1]
+        return new[2][2] if len(new[2]) == 3 else NONE
+    if k == "item" and is_const(new[2]) and table(new[1]) is not None:
+        for e in table(new[1]).entries:
+            if e[0] == new[2]:
+                return e[1]
+    if k == "dropnone":
+        return new
+    return new
+
+
 def guard_states(guards, var, domain):
     """The values v of ``domain`` for which every guard that mentions ``var`` holds when var == v; None when some such guard
     cannot be decided from the value alone."""
